@@ -303,6 +303,10 @@ def make_specs():
     dec = c20.InotifyParse(c20.BufWorld())
     dec.prop = PROP
     out.append(dec)
+    # 'every change notification read from the kernel ... is handed to the emitter exactly once, in kernel order': the reader's
+    # loop over the decoded records (one output record per non-marker input record, no record skipped, the loop never left early)
+    from specs.inotify_read import IRWorld, ReadEvents
+    out.append(ReadEvents(IRWorld(), PROP, want=("safety",)))
     return out
 
 
